@@ -121,7 +121,8 @@ def verify_function(ct, label=None, params=None, observe=None):
                         conds.append(c if is_z3(c) else z3.BoolVal(bool(c)))
                 goal = z3.Or(*conds) if conds else z3.BoolVal(False)
                 ctx.prove("%s/raises:%s:allowed@%s" % (flabel, exc, getattr(pr.node, "lineno", "?")), goal, pr.node, "raises")
-            ctx.obligs.append(Oblig("%s/canary" % flabel, list(ctx.facts), z3.BoolVal(False), "", "canary"))
+            if not ctx.tainted:
+                ctx.obligs.append(Oblig("%s/canary" % flabel, list(ctx.facts), z3.BoolVal(False), "", "canary"))
         except PathAbort:
             pass
         except Unsupported as e:
